@@ -133,8 +133,9 @@ def _limit_endpoint(
     s_l: torch.Tensor,
     s_r: torch.Tensor,
 ) -> torch.Tensor:
-    # If derivative points opposite to the first secant, zero it
-    mask_sign_change = d_end * s_l < 0
+    # If the derivative does not point the way of the first secant, zero it
+    # (a zero secant included: a flat end interval has to stay flat)
+    mask_sign_change = torch.sign(d_end) != torch.sign(s_l)
     d_end = torch.where(mask_sign_change, torch.zeros_like(d_end), d_end)
 
     # If secants switch sign, cap magnitude to 3*|s_l|
